@@ -848,6 +848,7 @@ def reject_cases(tier, route=None):
                     out.append({"base": b_k, "before": n_before, "mal": "renamed parameter", "slot": slot})
                 out.append({"base": b_k, "before": n_before, "mal": "extra parameter"})
                 out.append({"base": b_k, "before": n_before, "mal": "caller reuses its dictionary"})
+                out.append({"base": b_k, "before": n_before, "mal": "conversions between additions"})
     # malformed inputs of the other constructors
     for what in ("duplicate identifier", "int identifier", "float identifier", "None identifier"):
         for entry in ("from_pytorch", "from_dataframe"):
@@ -869,6 +870,26 @@ def run_reject(case, tmp=None):
         finally:
             shutil.rmtree(tmp, ignore_errors=True)
     names, shapes = REJECT_BASES[case["base"]]
+    if case["mal"] == "conversions between additions":
+        # (not a malformed addition) the container is converted to every in-memory form after EACH addition: every conversion
+        # shows the container as it is at that moment (nothing remembered from an earlier conversion)
+        ip = IP()
+        ref = new_ref([], names, [tuple(s) for s in shapes])
+        for k in range(case["before"] + 1):
+            d, rv = _valid_entry(names, shapes, k)
+            ip.add_individual_parameters(f"p{k}", d)
+            ref["ids"].append(f"p{k}")
+            ref["vals"][f"p{k}"] = rv
+            for what, fn, chk in (("to_pytorch", ip.to_pytorch, check_tensors), ("to_dataframe", ip.to_dataframe, check_dataframe)):
+                try:
+                    out = fn()
+                except Exception as e:  # noqa: BLE001
+                    return [(f"{what}|{type(e).__name__}|conversion repeated after a further addition", str(e)[:200], None, None)], "between:raise"
+                diffs = chk(out, ref)
+                if diffs:
+                    kind, msg, exp, obs = diffs[0]
+                    return [(f"{what}|{kind}|conversion repeated after a further addition", f"after {k + 1} additions: {msg}", exp, obs)], "between:stale"
+        return [], "between:fresh conversions"
     if case["mal"] == "caller reuses its dictionary":
         # (not a malformed addition) ONE working dictionary, holding plain numbers / lists, is filled again and handed over for
         # each individual, and scribbled over afterwards: every identifier keeps the values it was added with
